@@ -424,10 +424,61 @@ def replay_loop(inputs, ob):
     return ReplayResult(bool(problems), f"max_retries={mr} prior={prior} outcome={kind} status={status} retryable_codes={sorted(codes)} flag={flag} msg={msg!r}: {len(reqs)} requests, result={out!r}; " + "; ".join(problems))
 
 
+def search_loop(ob, seed=0):
+    """Bounded native search used only when the proof of an obligation is lost: every script of up to 2*mr+3 outcomes
+    over {stale disconnect, connect error, read timeout, 503, 429+Retry-After, 200, 400} for max_retries 0..2 on the real loop;
+    judged by the property (requests <= max_retries+1, nothing after a non-retryable outcome, sleeps in [0, backoff_max])."""
+    import itertools
+
+    alphabet = [("RemoteProtocolError", MARKER), ("ConnectError", ""), ("ReadTimeout", ""), ("response", 503), ("response", 429), ("response", 200), ("response", 400)]
+
+    class R:
+        def __init__(self, st):
+            self.status_code, self.content = st, b"body"
+            self.headers = {"Retry-After": "0.25"} if st == 429 else {}
+
+    for mr in (0, 1, 2):
+        for flag in (True, False):
+            cfg = rt.HttpRetryConfig(max_retries=mr, backoff_base=0.01, backoff_max=0.5, retryable_status_codes=frozenset({503, 429}), retry_on_connection_error=flag)
+            for n in range(1, 2 * mr + 4):
+                for script in itertools.product(alphabet, repeat=n):
+                    log = []
+
+                    def make_request(script=script, log=log, flag=flag):
+                        i = sum(1 for e in log if e[0] == "req")
+                        k, a = script[i] if i < len(script) else ("response", 200)
+                        if k == "response":
+                            r = R(a)
+                            log.append(("req", r, a in (503, 429)))
+                            return r
+                        exc = EXC[k](a or k)
+                        log.append(("req", exc, (k in ("ConnectError", "ReadTimeout") and flag) or k == "RemoteProtocolError"))
+                        raise exc
+
+                    try:
+                        out = rt._request_with_retry(make_request, config=cfg, method_label="POST", url="u", _sleep=lambda d, log=log: log.append(("sleep", d)))
+                    except BaseException as e:  # noqa: BLE001
+                        out = e
+                    reqs = [e for e in log if e[0] == "req"]
+                    problems = []
+                    if len(reqs) > mr + 1:
+                        problems.append(f"{len(reqs)} requests with max_retries={mr}")
+                    for i, e in enumerate(log):
+                        if e[0] == "sleep" and not (isinstance(e[1], float) and 0 <= e[1] <= 0.5):
+                            problems.append(f"sleep({e[1]!r}) outside [0, 0.5]")
+                        if e[0] == "req" and not e[2] and (i != len(log) - 1 or out is not e[1]):
+                            problems.append(f"non-retryable outcome {e[1]!r} was not final / not handed back as is")
+                    if problems:
+                        shown = [a if k == "response" else k for k, a in script]
+                        return {"max_retries": mr, "retry_on_connection_error": flag, "script": shown}, ReplayResult(True, f"max_retries={mr} outcomes {shown}: " + "; ".join(problems))
+    return None
+
+
 @unit(
     "C38.O1/O2 _request_with_retry: bounded requests, retry only after retryable outcomes, bounded sleeps",
     targets=["vgi_rpc/http/_retry.py::_request_with_retry", "vgi_rpc/http/_retry.py::_get_retry_after"],
     replay=replay_loop,
+    search=search_loop,
     min_obligations=60,
 )
 def retry_loop(S):
